@@ -206,6 +206,8 @@ func runThorough(P *Prog, repo, verif, id string, f checkFn, r *Run) {
 			}()
 			f(r2)
 		}()
+		theProg = P
+		helperCtx = map[*ssa.Function]*ssa.Call{}
 		r.Stats["goarch386_obligations"] = len(r2.Obls)
 		r.Stats["goarch386_packages"] = len(P2.Pkgs)
 		// merge: an obligation whose verdict differs from the default build is recorded under its own key
